@@ -1041,8 +1041,10 @@ class VM:
             if key_str == "BYTES_PER_ELEMENT":
                 return obj._element_size
             if key_str == "buffer":
-                # Return the underlying buffer if it exists
-                return getattr(obj, "_buffer", UNDEFINED)
+                # Return the underlying buffer if it exists (a typed array built
+                # from a length or a list has none)
+                buffer = obj._buffer
+                return buffer if buffer is not None else UNDEFINED
             # Built-in typed array methods
             typed_array_methods = ["toString", "join", "subarray", "set"]
             if key_str in typed_array_methods:
